@@ -82,10 +82,10 @@ def compare(stats, n, delivered, cfg, exhaustive_enum):
     return bad
 
 
-def run_one(spec, cfg, mode, var, limit):
+def run_one(spec, cfg, mode, var, limit, stack=None):
     obs = Count()
     with S.interpose(obs):
-        o = S.run(spec, cfg, mode, var, limit=limit)
+        o = S.run(spec, cfg, mode, var, limit=limit, stack=stack)
     return o, obs
 
 
@@ -96,12 +96,29 @@ def check_spec(acc, spec, tier):
         runs = [("enumerate", None, None), ("enumerate", None, 1), ("enumerate", None, 2)]
         if fam != "F1" or tier == "thorough":
             runs += [("min", nv - 1, None), ("max", 0, None)]
-        for mode, var, limit in runs:
+        stacks = [None]
+        if cfg[2] in ("mid", "min_cost") and U.n_assignments(spec) <= 300:
+            stacks += [3, 4, 5, 7]  # exactly / almost full stacks (capacity guards of solve_one and of shaving)
+        for (mode, var, limit), stack in [(r, st) for r in runs for st in stacks]:
+            if stack is not None and (mode != "enumerate" or limit is not None):
+                continue
             if mode != "enumerate" and U.n_assignments(spec) > 5000:
                 continue
-            o, obs = run_one(spec, cfg, mode, var, limit)
+            o, obs = run_one(spec, cfg, mode, var, limit, stack)
+            if stack is not None:
+                acc.c["nt_tight_stack_runs"] += 1
             acc.c["runs"] += 1
             acc.c["propagator_executions"] += obs.n["filter"]
+            if o.abort == "exc:RuntimeError" and stack is not None:
+                # the solver refused to go on (stack full): the counters reported so far must still be exact
+                delivered = len(o.solutions)
+                bad = compare(o.stats, obs.n, delivered, cfg, False)
+                acc.c["nt_refused_runs_checked"] += 1
+                for label, rep, seen in bad[:2]:
+                    acc.violation(f"{label}:{'shaving' if cfg[0] == 'shaving' else 'bc'}:stack-full",
+                                  SC.witness(spec, cfg, mode=mode, var=var, limit=limit, stack=stack, reported=rep, observed=seen, stats=o.stats, counts=obs.n),
+                                  "a reported statistic differs from the observed event count when the stack is (almost) full")
+                continue
             if o.abort:
                 acc.c["aborted_" + o.abort.split(":")[0]] += 1
                 continue
@@ -119,7 +136,7 @@ def check_spec(acc, spec, tier):
                 acc.c["nt_partial_enumerations"] += 1
             for label, rep, seen in bad[:2]:
                 acc.violation(f"{label}:{'shaving' if cfg[0] == 'shaving' else 'bc'}:{mode if mode == 'enumerate' else 'optimise'}",
-                              SC.witness(spec, cfg, mode=mode, var=var, limit=limit, reported=rep, observed=seen, stats=o.stats, counts=obs.n),
+                              SC.witness(spec, cfg, mode=mode, var=var, limit=limit, stack=stack, reported=rep, observed=seen, stats=o.stats, counts=obs.n),
                               "a reported statistic differs from the observed event count / a conservation law fails")
             if not acc.samples and obs.n["choice"] > 2:
                 acc.sample(SC.witness(spec, cfg, mode=mode, stats=o.stats, observed=obs.n), cap=1)
@@ -164,7 +181,7 @@ def replay(entry):
     rc = 0
     for w in entry["witnesses"]:
         for _ in range(2):
-            o, obs = run_one(w["spec"], tuple(w["cfg"]), w["mode"], w["var"], w.get("limit"))
+            o, obs = run_one(w["spec"], tuple(w["cfg"]), w["mode"], w["var"], w.get("limit"), w.get("stack"))
             delivered = len(o.solutions) if w["mode"] == "enumerate" else o.stats["SOLVER_SOLUTION_NB"]
             exhaustive = w["mode"] == "enumerate" and (w.get("limit") is None or len(o.solutions) < w["limit"])
             bad = compare(o.stats, obs.n, delivered, tuple(w["cfg"]), exhaustive)
